@@ -174,6 +174,9 @@ func Read(data []byte) (*Entity, error) {
 }
 
 // splitMultipart: RFC 2046 — the CRLF preceding a delimiter line belongs to the delimiter.
+// SplitMultipart is exported for harnesses that need the raw bytes of each part.
+func SplitMultipart(body []byte, boundary string) ([][]byte, error) { return splitMultipart(body, boundary) }
+
 func splitMultipart(body []byte, boundary string) ([][]byte, error) {
 	delim := []byte("--" + boundary)
 	var parts [][]byte
